@@ -511,6 +511,9 @@ func (m *Machine) checkPrimary(c *Term) Result {
 	m.Sh.Stats.FeasQueries++
 	if r == Unknown {
 		m.Sh.Stats.Unknown++
+		if os.Getenv("GOSMT_DEBUG") != "" {
+			fmt.Printf("UNKNOWN feasibility: %s%s\n", c.Pretty(8), m.where())
+		}
 	}
 	m.Sh.mu.Unlock()
 	return r
